@@ -325,3 +325,11 @@ Definition run_case (BUF : nat) (a : arg) : list bytes :=
   | AL [AN 8; AN id; AB server; AB prefix; AL routes; AL reqs] => run_router id server prefix routes reqs
   | _ => [B"? unknown case"]
   end.
+
+(* equality of observation-line lists, for the vm_compute cross-check of the extracted model *)
+Fixpoint lines_eqb (a b : list bytes) : bool :=
+  match a, b with
+  | [], [] => true
+  | x :: a', y :: b' => beq x y && lines_eqb a' b'
+  | _, _ => false
+  end.
